@@ -93,6 +93,36 @@ func checkC18(c *Checker) {
 		}
 		c.expect(okH3, "C18-H3", inst, p, "external callees within the table", d3)
 	}
+	// H4: the pool cycle is allocation-free only if Put really recycles: a path of Put that returns without
+	// handing the caller's buffer to sync.Pool.Put makes the next Get allocate a new one
+	c.rule("C18-H4", "recycling: every returning path of PoolAllocator.Put passes the caller's buffer to sync.Pool.Put, and Get returns the pool's value without a conditional fresh allocation", 1)
+	if fn := c.anchor("C18-H4", "(*PoolAllocator[T]).Put"); fn != nil && len(fn.Params) == 2 {
+		s := c.Summary(fn)
+		if !c.undecidedEffects("C18-H4", "PoolAllocator.Put", s) {
+			ok, d := len(retPaths(s)) > 0, "no returning path"
+			bn := "*" + paramName(fn, 1)
+			for _, o := range retPaths(s) {
+				found := false
+				for _, e := range effectsOf(o, ECall) {
+					if e.Callee != "(*sync.Pool).Put" {
+						continue
+					}
+					for _, a := range e.Args {
+						if iv, isI := a.(IfaceV); isI {
+							a = iv.Dyn
+						}
+						if p, isP := a.(PtrV); isP && p.Obj != nil && p.Obj.Name == bn && len(p.Path) == 0 {
+							found = true
+						}
+					}
+				}
+				if !found {
+					ok, d = false, "a path of Put returns without recycling the caller's buffer: "+factsBrief(o.St.facts)
+				}
+			}
+			c.expect(ok, "C18-H4", "PoolAllocator.Put", c.pos(fn.Pos()), "the buffer reaches sync.Pool.Put on every returning path", d)
+		}
+	}
 	if c.Tier == "thorough" {
 		compilerCrossCheck(c, hot)
 	}
@@ -243,6 +273,18 @@ func checkC19(c *Checker) {
 	for _, o := range sub.Obligs {
 		if o.Rule == "C12-V2" || o.Rule == "C12-V4" {
 			c.add("C19-N4", o.Rule+"/"+o.Instance, o.Pos, o.Verdict, o.Detail, o.Witness)
+		}
+	}
+	// N5: a window is a private header. Slice must build a fresh header on every path, otherwise a header-changing
+	// operation (Append, AppendSample, Put) on the "window" rewrites the header other goroutines are reading (C02-R2).
+	c.rule("C19-N5", "every window is a private header: Slice returns a fresh object on every path and does not write the receiver (C02-R2)", 2)
+	sub2 := newChecker(c.Prop, c.Tier, c.Seed, c.verifDir)
+	sub2.W = c.W
+	sub2.sums = c.sums
+	checkC02(sub2)
+	for _, o := range sub2.Obligs {
+		if o.Rule == "C02-R2" {
+			c.add("C19-N5", o.Rule+"/"+o.Instance, o.Pos, o.Verdict, o.Detail, o.Witness)
 		}
 	}
 	// N3: package-level variables
